@@ -4,5 +4,5 @@ SHA=$1; PROP=$2; TIER=${3:-quick}
 D=$(mktemp -d /tmp/rc_XXXXXX); rmdir "$D"
 git -C /repo worktree add -q --detach "$D" HEAD || exit 9
 if ! git -C "$D" revert --no-commit "$SHA" >/dev/null 2>&1; then echo "REVERT CONFLICT $SHA"; git -C /repo worktree remove --force "$D"; exit 9; fi
-cd "$(dirname "$0")/.." && VERIF_REPO="$D" ./check "$PROP" --tier "$TIER" 2>&1 | grep -E "^(VIOLATION|OK prop|INCONCLUSIVE|KNOWN)|rule " | cut -c1-330 | head -3
+cd "$(dirname "$0")/.." && VERIF_NO_EVIDENCE=1 VERIF_REPO="$D" ./check "$PROP" --tier "$TIER" 2>&1 | grep -E "^(VIOLATION|OK prop|INCONCLUSIVE|KNOWN)|rule " | cut -c1-330 | head -3
 git -C /repo worktree remove --force "$D"
